@@ -374,7 +374,7 @@ static void run_escaping(prog_fn fn, struct pend p, const char* what) {
   int pfd[2];
   if (pipe(pfd) != 0) { vh_info("pipe failed"); return; }
   fflush(NULL);
-  pid_t pid = fork();
+  pid_t pid = vh_fork();
   if (pid < 0) { vh_info("fork failed"); close(pfd[0]); close(pfd[1]); return; }
   if (pid == 0) {
     close(pfd[0]);
@@ -401,6 +401,7 @@ static void run_escaping(prog_fn fn, struct pend p, const char* what) {
   vh_count("uncaught_child_runs");
   compare_traces(what, 1);
   vh_evals(4);
+  if (VH_CHILD_HUNG(st)) { vh_violation("C07:hang:child-process", "%s: the child running the escaping program used up its CPU budget", what); return; }
   if (!WIFEXITED(st) || WEXITSTATUS(st) != EXIT_FAILURE) {
     vh_violation("C07:uncaught:wrong-exit-status", "%s: escaping %s should end the program with EXIT_FAILURE; raw status 0x%x",
       what, KNAME[p.exc], st);
